@@ -10,6 +10,7 @@ CONSTANTS
   DevRegexKeyedByAddress = %s
   Allocs = "%s"
   InitSet = "%s"
+  Ops = "%s"
   Export = %s
 INVARIANTS HistoryIndependent Exported Bounded
 PROPERTIES TagAlgebra
@@ -17,9 +18,9 @@ CHECK_DEADLOCK FALSE
 """
 
 
-def histories(v, wd, mode, depth, workers=12, initset="full"):
+def histories(v, wd, mode, depth, workers=12, initset="full", ops="all"):
     """M1 + export with the deterministic allocator, then M2 replay of every history."""
-    r = vlib.run_tlc("MC_Engine", CFG % (mode, depth, "FALSE", "first", initset, "TRUE"), wd, "mc_%s_%s_d%d" % (mode, initset, depth),
+    r = vlib.run_tlc("MC_Engine", CFG % (mode, depth, "FALSE", "first", initset, ops, "TRUE"), wd, "mc_%s_%s_%s_d%d" % (mode, initset, ops, depth),
                      workers=workers, timeout=3000, heap="12g")
     if r["error"]:
         raise vlib.ToolError("M1 failed (MC_Engine %s depth %d): %s" % (mode, depth, r["error"][:2000]))
@@ -34,18 +35,18 @@ def histories(v, wd, mode, depth, workers=12, initset="full"):
             seen.add(key)
             hs.append(e)
     vlib.require(len(hs) > 50, "too few histories exported")
-    cases = os.path.join(wd, "hist_%s_%s.jsonl" % (mode, initset))
+    cases = os.path.join(wd, "hist_%s_%s_%s.jsonl" % (mode, initset, ops))
     vlib.write_jsonl(cases, uni + hs)
-    rep_path = os.path.join(wd, "report_%s_%s.json" % (mode, initset))
+    rep_path = os.path.join(wd, "report_%s_%s_%s.json" % (mode, initset, ops))
     vlib.run_harness(["replay", cases, rep_path], timeout=3000)
     rep = vlib.load_report(rep_path)
-    v.add_report(rep, "M2:MC_Engine/%s/%s/d%d" % (mode, initset, depth), traces=len(hs))
+    v.add_report(rep, "M2:MC_Engine/%s/%s/%s/d%d" % (mode, initset, ops, depth), traces=len(hs))
     return r, rep, len(hs)
 
 
 def any_alloc(v, wd, mode, depth, workers=12):
     """M1 only: every placement of re-allocated rules keeps the invariant (fix in place)."""
-    r = vlib.run_tlc("MC_Engine", CFG % (mode, depth, "FALSE", "any", "full", "FALSE"), wd, "mc_any_%s_d%d" % (mode, depth),
+    r = vlib.run_tlc("MC_Engine", CFG % (mode, depth, "FALSE", "any", "full", "all", "FALSE"), wd, "mc_any_%s_d%d" % (mode, depth),
                      workers=workers, timeout=3000, heap="12g")
     if r["error"]:
         raise vlib.ToolError("M1 (any allocator) failed: %s" % r["error"][:2000])
@@ -55,7 +56,7 @@ def any_alloc(v, wd, mode, depth, workers=12):
 
 def dev_selftest(v, wd, depth=5, workers=8):
     """Spec sensitivity: with the pre-fix deviation switched on TLC must find the stale-regex history."""
-    r = vlib.run_tlc("MC_Engine", CFG % ("blocker", depth, "TRUE", "any", "full", "FALSE"), wd, "mc_dev", workers=workers, timeout=1800)
+    r = vlib.run_tlc("MC_Engine", CFG % ("blocker", depth, "TRUE", "any", "full", "all", "FALSE"), wd, "mc_dev", workers=workers, timeout=1800)
     vlib.require(r["error"] and "HistoryIndependent is violated" in r["error"],
                  "MC_Engine with DevRegexKeyedByAddress=TRUE no longer violates HistoryIndependent (model lost its sensitivity)")
     v.stage_info.append({"selftest": "DevRegexKeyedByAddress=TRUE => HistoryIndependent violated (expected)", "wall_s": r["wall_s"]})
